@@ -31,6 +31,7 @@ type c02Case struct {
 	keys     []string
 	eager    bool   // timers may fire at any point (queue family: give-up racing hand-off)
 	remove   string // partitioned strategies: a thread removes this partition while its tokens are outstanding
+	backlog  int    // queue family: maximum backlog (0 = 10); 1 makes one of two racing callers hit a full backlog
 }
 
 // endState checks that nothing is held anywhere and that the full limit is admitted again.
@@ -115,11 +116,11 @@ func findNamed(obj any, name string) (any, bool) {
 func c02Scenario(cs c02Case) *mc.Scenario {
 	return &mc.Scenario{
 		Name: fmt.Sprintf("C02/%s", cs.kind),
-		Params: fmt.Sprintf("strategy=%s limit=%d callers=%d holder-outcome=%s cancel=%v keys=%v eager-clock=%v remove-partition=%q", cs.strategy, cs.limit, cs.callers,
-			outcomeNames[cs.outcome], cs.cancel, cs.keys, cs.eager, cs.remove),
+		Params: fmt.Sprintf("strategy=%s limit=%d callers=%d holder-outcome=%s cancel=%v keys=%v eager-clock=%v remove-partition=%q max-backlog=%d", cs.strategy, cs.limit, cs.callers,
+			outcomeNames[cs.outcome], cs.cancel, cs.keys, cs.eager, cs.remove, cs.backlog),
 		Cfg: vrt.Config{EagerClock: cs.eager, MaxSteps: 6000},
 		Body: func(x *mc.Exec) {
-			st := buildStack(cs.kind, cs.limit, stackOpts{strategy: cs.strategy, timeout: 20 * time.Millisecond, deadlineIn: 20 * time.Millisecond})
+			st := buildStack(cs.kind, cs.limit, stackOpts{strategy: cs.strategy, timeout: 20 * time.Millisecond, deadlineIn: 20 * time.Millisecond, maxBacklog: cs.backlog})
 			key := func(i int) string {
 				if len(cs.keys) == 0 {
 					return ""
@@ -246,6 +247,10 @@ func runC02(c *Ctx) {
 			c.Explore(c02Scenario(c02Case{kind: kind, strategy: "precise", limit: 1, callers: 2, outcome: o, eager: eager}), opt)
 			c.Explore(c02Scenario(c02Case{kind: kind, strategy: "precise", limit: 1, callers: 2, outcome: (o + 1) % 3, cancel: true, eager: eager}),
 				mc.Options{PreemptBound: 1})
+			if eager && (kind == "queue-lifo" || kind == "pool-fifo" || kind == "fixedpool-lifo") {
+				// a full backlog: the refused caller must hold nothing
+				c.Explore(c02Scenario(c02Case{kind: kind, strategy: "precise", limit: 1, callers: 2, outcome: o, eager: eager, backlog: 1}), mc.Options{PreemptBound: 2})
+			}
 			if kind == "blocking0" || kind == "deadline" || kind == "queue-fifo-evict" || kind == "pool-lifo" {
 				c.Explore(c02Scenario(c02Case{kind: kind, strategy: "simple", limit: 2, callers: 3, outcome: (o + 2) % 3, eager: eager}), mc.Options{PreemptBound: 1})
 			}
